@@ -8,6 +8,7 @@ Control flow on a symbolic condition forks the path (Ctx.decide); loops over seq
 unknown length are cut at a loop contract (LoopSpec) supplied by the sidecar contract.
 """
 import ast
+import os
 import operator
 import itertools
 import functools
@@ -98,6 +99,12 @@ class Ctx:
         self.pc.append(t)
         self.pcset.add(t.get_id())
 
+    def truncate_pc(self, n):
+        """Drop the path-condition entries added since position n (speculative evaluation).  The id set used by `decide` to
+        recognise facts already on the path is rebuilt: ids of dropped (and possibly freed, hence reusable) terms must not stay."""
+        del self.pc[n:]
+        self.pcset = {t.get_id() for t in self.pc}
+
     def _check(self, extra):
         self.solver_calls += 1
         s = z3.Solver()
@@ -179,12 +186,19 @@ class PathResult:
         self.ctx, self.outcome, self.value = ctx, outcome, value
 
 
-def explore(run, max_paths=20000):
+def explore(run, max_paths=20000, max_seconds=None):
     """Run `run(ctx)` once per feasible path.  `run` returns a value, raises a Python exception
-    (exceptional exit of the real code) or an engine signal."""
+    (exceptional exit of the real code) or an engine signal.  A budget on the wall clock of one exploration keeps a body the
+    models cannot follow cheaply from stalling the whole check: beyond it the function is out-of-subset (undecided)."""
+    import time as _time
+    if max_seconds is None:
+        max_seconds = float(os.environ.get('KVC_EXPLORE_SECONDS', '240'))
+    t_begin = _time.time()
     stack = [[]]
     results = []
     while stack:
+        if _time.time() - t_begin > max_seconds:
+            raise OutOfSubset(f'path exploration exceeded {int(max_seconds)} s ({len(results)} paths so far)')
         dec = stack.pop()
         ctx = Ctx(dec)
         set_current(ctx)
@@ -730,7 +744,17 @@ class Interp:
             self.ctx.assume(self.not_(t))
             return
         guard = 0
-        while self.truth(self.eval(s.test, env)):
+        symbolic_rounds = 0
+        while True:
+            tv = self.eval(s.test, env)
+            st_ = self.symtruth(tv)
+            if isinstance(st_, SBool) and not (z3.is_true(z3.simplify(st_.t)) or z3.is_false(z3.simplify(st_.t))):
+                # a guard that depends on symbolic data forks on every round: without a loop contract this does not end
+                symbolic_rounds += 1
+                if symbolic_rounds > 6:
+                    raise OutOfSubset(f'{self.source_name}:{s.lineno}: while loop with a data-dependent guard has no loop contract ({key})')
+            if not self.truth(tv):
+                break
             guard += 1
             if guard > 4096:
                 raise OutOfSubset('while loop does not terminate concretely (needs a loop contract)')
@@ -1071,7 +1095,7 @@ class Interp:
             except Exception:
                 ok = False
             finally:
-                del ctx.pc[mark[0]:]
+                ctx.truncate_pc(mark[0])
             if len(ctx.choices) != mark[2] or len(ctx.events) != mark[4]:
                 ok = False
             if not ok:
@@ -1245,7 +1269,7 @@ class Interp:
                     return cond, (k, v)
                 return cond, interp.eval(e.elt, cenv)
             finally:
-                del ctx.pc[mark:]
+                ctx.truncate_pc(mark)
         return CompSeq(self, it, at, kind)
 
     def ex_ListComp(self, e, env):
